@@ -1011,7 +1011,14 @@ func ParsePortionSpecific(input string) (*big.Rat, InterpreterError) {
 		if len(fractionMatch) != 0 {
 			numerator := fractionMatch[1]
 			denominator := fractionMatch[2]
-			res, ok = new(big.Rat).SetString(numerator + "/" + denominator)
+			// both numerals are decimal: big.Rat.SetString would guess their base
+			// from a leading zero (1/010 would be read as 1/8)
+			num, okNum := new(big.Int).SetString(numerator, 10)
+			den, okDen := new(big.Int).SetString(denominator, 10)
+			ok = okNum && okDen && den.Sign() != 0
+			if ok {
+				res = new(big.Rat).SetFrac(num, den)
+			}
 			if !ok {
 				return nil, BadPortionParsingErr{Reason: "invalid fractional format", Source: input}
 			}
